@@ -171,3 +171,99 @@ def stmt_is_trivial(st):
 
 def is_abstract_or_empty(f: FuncInfo):
     return all(stmt_is_trivial(s) for s in f.node.body)
+
+
+# ------------------------------------------------------------------ mutation of a container while it is iterated
+COPY_WRAPPERS = {"list", "tuple", "sorted", "set", "frozenset", "dict", "copy", "deepcopy", "reversed_copy"}
+
+
+def _field(e):
+    """last attribute / name of an access path (field-based aliasing)."""
+    while isinstance(e, ast.Subscript):
+        e = e.value
+    if isinstance(e, ast.Attribute):
+        return e.attr
+    if isinstance(e, ast.Name):
+        return e.id
+    return None
+
+
+def fields_mutated(ctx, f, depth=3, _seen=None):
+    """attribute names whose container is mutated by f or (depth-bounded) by what it calls."""
+    from ..core.facts import MUTATORS
+    seen = _seen if _seen is not None else {}
+    if f in seen:
+        return seen[f]
+    seen[f] = set()
+    out = set()
+    for x in walk_shallow(f.node):
+        if isinstance(x, ast.Call) and isinstance(x.func, ast.Attribute) and x.func.attr in MUTATORS:
+            if isinstance(x.func.value, ast.Attribute):
+                out.add(x.func.value.attr)
+        if isinstance(x, ast.Delete):
+            for t in x.targets:
+                if isinstance(t, ast.Subscript) and isinstance(t.value, ast.Attribute):
+                    out.add(t.value.attr)
+    if depth > 0:
+        for c, tg in ctx.R.calls(f):
+            cands = [t for t, h in tg if isinstance(t, FuncInfo)]
+            if len(cands) > 6:
+                continue
+            for t in cands:
+                out |= fields_mutated(ctx, t, depth - 1, seen)
+    seen[f] = out
+    return out
+
+
+def mutation_during_iteration(ctx, f):
+    """[(for node, field, culprit text)] loops of f that iterate a live attribute container which the body mutates."""
+    out = []
+    for st in walk_shallow(f.node):
+        if not isinstance(st, ast.For):
+            continue
+        it = st.iter
+        if isinstance(it, ast.Call):
+            n = fn_name(it)
+            if n in COPY_WRAPPERS:
+                continue
+            if n in ("enumerate", "reversed", "zip") and it.args:
+                it = it.args[0]
+                if isinstance(it, ast.Call) and fn_name(it) in COPY_WRAPPERS:
+                    continue
+            elif n in ("items", "keys", "values") and isinstance(it.func, ast.Attribute):
+                it = it.func.value
+            else:
+                continue
+        if isinstance(it, ast.Subscript) and isinstance(it.slice, ast.Slice):
+            continue  # x[:] is a copy
+        if isinstance(it, ast.Name):
+            ds = [d for d in _local_defs(f, it.id)]
+            if len(ds) == 1 and isinstance(ds[0], (ast.Attribute, ast.Subscript)):
+                it = ds[0]
+            else:
+                continue
+        if not isinstance(it, ast.Attribute):
+            continue
+        fld = it.attr
+        body = ast.Module(body=st.body, type_ignores=[])
+        from ..core.facts import MUTATORS
+        for x in walk_shallow(body):
+            if isinstance(x, ast.Call) and isinstance(x.func, ast.Attribute):
+                if x.func.attr in MUTATORS and isinstance(x.func.value, ast.Attribute) and x.func.value.attr == fld:
+                    # structural mutation of the container itself (element mutation `C[k].update()` is harmless)
+                    out.append((st, fld, U(x)[:60]))
+                    break
+                tg = ctx.call_targets(f, x)
+                cands = [t for t, h in tg if isinstance(t, FuncInfo)]
+                if 0 < len(cands) <= 6 and any(fld in fields_mutated(ctx, t) for t in cands):
+                    out.append((st, fld, U(x)[:60]))
+                    break
+            if isinstance(x, ast.Delete) and any(isinstance(t, ast.Subscript) and _field(t.value) == fld for t in x.targets):
+                out.append((st, fld, U(x)[:60]))
+                break
+    return out
+
+
+def _local_defs(f, name):
+    from ..engine import local_defs
+    return [d for d in local_defs(f, name) if not isinstance(d, tuple)]
